@@ -26,6 +26,11 @@ CHECK = {
          "shards": {"quick": 16, "thorough": 16}, "budget_s": {"quick": 60, "thorough": 900}},
         {"name": "c16-middleware", "pkg": TR, "rewrite": [TR], "harness": H, "test": "^TestVerifC16Middleware$", "gomaxprocs": 1,
          "shards": {"quick": 16, "thorough": 16}, "budget_s": {"quick": 60, "thorough": 600}},
+        # the consumer in the runner (testResults.fetchTrace / report): result-table histories with tracing,
+        # the report asked for at once or after everything is quiet (harness of C04)
+        {"name": "c16-consumers", "pkg": "internal/app/connectconformance", "rewrite": ["internal/app/connectconformance"], "harness": ["connectconformance/c04_test.go", "connectconformance/c05_test.go", "connectconformance/peersim_test.go", "connectconformance/c11_test.go", "connectconformance/fakeproc_test.go", "connectconformance/gateutil_test.go"],
+         "test": "^TestVerifC04Report$",
+         "shards": {"quick": 16, "thorough": 16}, "budget_s": {"quick": 60, "thorough": 300}},
         {"name": "c16-programs-unlockgates", "pkg": TR, "rewrite": [TR], "harness": H, "test": "^TestVerifC16Programs$", "gomaxprocs": 1,
          "tiers": ["thorough"], "env": {"VERIF_GATE_UNLOCK": "1", "VERIF_TIER_OVERRIDE": "quick"},
          "shards": {"quick": 16, "thorough": 16}, "budget_s": {"quick": 60, "thorough": 240}},
